@@ -300,6 +300,9 @@ func (in *Interp) step(th *Thread) bool {
 		fr.pc++
 	case *ssa.If:
 		c := in.get(fr, x.Cond).(Boolv)
+		if !c.T.IsConst() && in.tryIfConvert(fr, c.T) {
+			break
+		}
 		side := in.branch(c.T)
 		fr.prev = fr.block
 		if side {
